@@ -9,7 +9,9 @@ Lemma C10_facts_ok :
   owner_fn_shape = Known "partitions[UuidMod(id, partition_count)]"%string /\
   write_paths_via_owner_fn = Known true /\
   (* the partition an index denotes is the catalogue entry's: the same on every node and after every restart *)
-  partitions_in_catalogue_order = Known true.
+  partitions_in_catalogue_order = Known true /\
+  (* a batch is grouped by appending each item to the group of getPartitionForId(item id) *)
+  batch_grouping_shape = Known true.
 Proof. repeat split; reflexivity. Qed.
 
 (* total and in range for every 128-bit id and every non-zero count (any uint64) *)
@@ -32,6 +34,18 @@ Proof. exact @ds_write_local. Qed.
 Theorem C10_write_total : forall (P : Type) (apply : path -> P -> list N -> P) parts p id,
   parts <> [] -> exists parts', ds_write apply parts p id = Some parts'.
 Proof. exact @ds_write_total. Qed.
+(* batches: the groups handed to the per-partition workers are exactly the non-empty owner classes of the batch, each in
+   batch order, one group per owner - every item reaches its owner's worker and no other, on each of the batch paths *)
+Theorem C10_batch_grouping : forall p n items, 0 < n ->
+  exists gs, group_batch p n items = Some gs /\ NoDup (map fst gs) /\
+    (forall o g, In (o, g) gs <-> g <> [] /\ g = filter (owned_by p n o) items) /\
+    (forall it, In it items -> exists o g, owner p it n = Some o /\ In (o, g) gs /\ In it g) /\
+    (forall o g it, In (o, g) gs -> In it g -> In it items /\ owner p it n = Some o).
+Proof. exact group_batch_spec. Qed.
+Example C10_batch_grouping_nonvacuous :
+  group_batch PBatchInsert 3 [[1]; [2]; [4]; [3]] = Some [(1, [[1]; [4]]); (2, [[2]]); (0, [[3]])].
+Proof. vm_compute. reflexivity. Qed.
+
 (* partition count 0 is a division by zero in the code (a crash; belongs to C12) *)
 Theorem C10_zero_count_crashes : forall p id, owner p id 0 = None.
 Proof. exact owner_zero. Qed.
@@ -43,4 +57,5 @@ Print Assumptions C10_range.
 Print Assumptions C10_value.
 Print Assumptions C10_total.
 Print Assumptions C10_locality.
+Print Assumptions C10_batch_grouping.
 Print Assumptions C10_write_total.
